@@ -2,7 +2,8 @@
 EXTENDS Integers, Sequences, FiniteSets, TLC, Json
 Kinds == {"range", "le", "ge", "eq"}
 RowSeqs == {<<"range", "le">>, <<"eq", "range", "ge">>, <<"le", "ge", "eq", "range">>, <<"range", "range">>, <<"ge", "eq">>}
-Extras == {"none", "abs", "logic", "abs+logic"}
+Extras == {"none", "abs", "logic", "abs+logic",
+           "sos1", "sos2+abs"}      \* an SOS set over the variables, given by the suffixes sosno / ref
 RangeModes == {"native", "slack", "linear"}
 Modes == 0..3
 Files == {"absent", "present", "short", "crlf",
